@@ -399,7 +399,10 @@ def _run(ctx, quick, broken, exe, janet, workdir):
         "kmp_mirror_vs_naive_exhaustive": kmp_ex,
         "c_mirror_disagreements": sum(1 for r in recs if r["model"] and "MIRROR-" in r["model"]),
         "c_mirrors_run_in_driver": "string.c: find find-all split join slice trim triml trimr repeat reverse ascii-upper ascii-lower "
-                                   "has-prefix? has-suffix? check-set bytes from-bytes (mirror = Spec compared on every generated call; "
+                                   "has-prefix? has-suffix? check-set bytes from-bytes; buffer.c: bit bit-set bit-clear bit-toggle fill popn blit; "
+                                   "array.c/tuple.c: insert remove slice; boot.janet: take drop take-while take-until drop-while drop-until "
+                                   "filter count find-index map(1,2) reduce min max min-of max-of sum product "
+                                   "(mirror = Spec compared on every generated call; "
                                    "a disagreement prints MIRROR-MISMATCH / MIRROR-UB and counts as a model difference)",
         "search_family_exhaustive_on_impl": {"pattern_text_pairs": kx_n, "calls": kx_n * 4, "differing_patterns": len(kx_bad)},
         "tested_only": "string/format / buffer/format: the subset %% %d %i %x %X %o %c %s (flags, width, precision) has a Lean definition (Lib/Format.lean) compared with the implementation; %f %e %g are compared with python % formatting only; %v %q %p %j etc. are not exercised. Conformance of every definition to the C code is by correspondence, not proof.",
